@@ -181,7 +181,9 @@ def freqOf (ac dp : Option Int) : Freq :=
     if d = 0 then (if a = 0 then .fin 0 else .inf) else .fin ((a : Rat) / (d : Rat))
   | _, _ => .fin 0
 
-/-- the genotype columns of one sample in one row, after `fillna(0.0)` -/
+/-- the genotype columns of one sample in one row, after `fillna(0.0)`.  Repaired code (fix V): the
+    columns are numeric whatever the file lacks (a field missing from every record used to leave an
+    object-typed column behind, on which `_tumor_boost` raised `TypeError`). -/
 structure Geno where
   zyg : Rat
   depth : Rat
@@ -325,7 +327,9 @@ def boostRow (r : VRow) : Freq :=
   match r.n with
   | none => r.t.altFreq
   | some g => match r.t.altFreq.toOpt, g.altFreq.toOpt with
-    | some t, some n => ofOpt (tumorBoost t n)
+    | some t, some n =>
+      -- 1 − 0.5·(1 − t)/0 : NaN at t = 1, +∞ for a (mis-counted) tumour frequency above 1
+      if n = 1 ∧ t > 1 then .inf else ofOpt (tumorBoost t n)
     | _, _ => .nan
 
 structure HetOpts where
